@@ -79,6 +79,16 @@ func (f *Do) Call(s *slip.Scope, args slip.List, depth int) (result slip.Object)
 		if firstValue(ns.Eval(test, d2)) != nil {
 			for _, rf := range rforms {
 				result = ns.Eval(rf, d2)
+				// The result forms are inside the nil block as well.
+				switch tr := result.(type) {
+				case *slip.ReturnResult:
+					if tr.Tag == nil {
+						return tr.Result
+					}
+					return tr
+				case *GoTo:
+					return tr
+				}
 			}
 			break
 		}
